@@ -26,12 +26,19 @@ impl WaitSlot {
     }
 
     pub(super) fn register_current_thread(&self) {
+        #[cfg(feature = "verif")]
+        crate::verif::event(crate::verif::Event::Register { slot: self as *const Self as usize });
         self.thread
             .set(thread::current())
             .expect("scheduler wait thread registered more than once");
     }
 
     pub(super) fn notify(&self) {
+        #[cfg(feature = "verif")]
+        crate::verif::event(crate::verif::Event::Notify {
+            slot: self as *const Self as usize,
+            had_thread: self.thread.get().is_some(),
+        });
         if let Some(thread) = self.thread.get() {
             thread.unpark();
         }
@@ -42,14 +49,32 @@ impl WaitSlot {
     /// `Thread::unpark` publishes a token even when it races between the second predicate check
     /// and `park_timeout`, closing the usual check/park lost-wakeup window.
     pub(super) fn wait_while(&self, timeout: Duration, mut blocked: impl FnMut() -> bool) {
+        #[cfg(feature = "verif")]
+        crate::verif::event(crate::verif::Event::WaitEnter { slot: self as *const Self as usize });
         if !blocked() {
             return;
         }
 
+        #[cfg(feature = "verif")]
+        crate::verif::point(crate::verif::Point::WaitAfterFirstCheck, self as *const Self as usize, 0);
         // Most scheduler stalls close within one worker timeslice.
         thread::yield_now();
         if blocked() {
+            #[cfg(feature = "verif")]
+            let timeout = crate::verif::park_timeout(self as *const Self as usize, timeout);
+            #[cfg(feature = "verif")]
+            let verif_parked_at = std::time::Instant::now();
+            #[cfg(feature = "verif")]
+            {
+                crate::verif::point(crate::verif::Point::WaitBeforePark, self as *const Self as usize, 0);
+                crate::verif::event(crate::verif::Event::ParkEnter { slot: self as *const Self as usize });
+            }
             thread::park_timeout(timeout);
+            #[cfg(feature = "verif")]
+            crate::verif::event(crate::verif::Event::ParkExit {
+                slot: self as *const Self as usize,
+                timed_out: verif_parked_at.elapsed() >= timeout,
+            });
         }
     }
 }
